@@ -21,8 +21,11 @@ git -C /repo worktree remove --force $W; rm -rf $W
 echo "$ID demo clean rc=$rc_clean seeded rc=$rc_seeded tests=$tests"
 # now the check against /repo with the change applied
 git -C /repo apply $DST/patch.diff || { echo "cannot apply to /repo"; exit 2; }
+# the evidence file of the property must keep describing the UNCHANGED tree: set it aside while the seeded tree is checked
+[ -f $V/evidence/$ID.json ] && cp $V/evidence/$ID.json /var/tmp/evidence_keep_$ID.json
 out=$(cd $V && ./vcheck $ID --tier $TIER 2>&1); rc=$?
 git -C /repo checkout -- .
+[ -f /var/tmp/evidence_keep_$ID.json ] && mv /var/tmp/evidence_keep_$ID.json $V/evidence/$ID.json
 echo "$out" | grep -E "tier=|^VIOLATION|^HARNESS-ERROR|^KNOWN" | head -6 | cut -c1-220
 echo "$ID vcheck($TIER) rc=$rc"
 python3 - "$ID" "$rc_clean" "$rc_seeded" "$tests" "$TIER" "$rc" "$VAR" <<'PY'
